@@ -15,7 +15,9 @@ EXTENDS Integers, Sequences, FiniteSets, TLC
 
 CONSTANTS N,          \* parties 0..N-1, 0 is the leader
           C,          \* connections per pair
-          CountFirst  \* BOOLEAN, see above
+          CountFirst, \* BOOLEAN, see above
+          EarlyAccept \* BOOLEAN: FALSE as coded - a joiner starts its accept goroutine after it has read the peer
+                      \* list and set need[]; TRUE is the deviation "accept loop started at the beginning of Connect"
 
 Party == 0..(N-1)
 Joiner == 1..(N-1)
@@ -94,7 +96,8 @@ Join(j) == /\ pc[j] = <<"init">> /\ pc[0] # <<"init">>
            /\ conns' = [conns EXCEPT ![j][<<0, 0>>] = <<j, 0, 0>>]
            /\ peers' = [peers EXCEPT ![j] = @ \cup {0}]
            /\ pc' = [pc EXCEPT ![j] = <<"hello.pre">>]
-           /\ UNCHANGED <<need, hello, apc, acur, list, errs>>
+           /\ apc' = IF EarlyAccept THEN [apc EXCEPT ![j] = "accept.pre"] ELSE apc
+           /\ UNCHANGED <<need, hello, acur, list, errs>>
 
 Hello(j) == /\ pc[j] = <<"hello.pre">>
             /\ hello' = hello \cup {<<j, 0, 0>>}
@@ -105,7 +108,7 @@ RecvList(j) == /\ pc[j] = <<"hello.post">>
                /\ list[j] # NoList
                /\ peers' = [peers EXCEPT ![j] = @ \cup list[j]]
                /\ need' = [need EXCEPT ![j] = [c \in ConnIx |-> Cardinality({i \in list[j] : i < j})]]
-               /\ apc' = [apc EXCEPT ![j] = "accept.pre"]
+               /\ apc' = IF EarlyAccept THEN apc ELSE [apc EXCEPT ![j] = "accept.pre"]
                /\ pc' = [pc EXCEPT ![j] = AfterDials(j, 0, {}, peers'[j])]
                /\ UNCHANGED <<conns, backlog, hello, acur, list, errs>>
 
